@@ -175,6 +175,14 @@ def ref_fields_of(spec):
             "c": {r["id"]: {f: a for a, f in r["args"]} for r in spec["conditions"]}}
 
 
+# the recorded finding `unreachable-weapon-damage-zeroed` is about exactly these weapon ids (no unit of the unit ->
+# weapon table of the unchanged tree carries them); it is a constant here, NOT read from the library, so that a
+# change which makes another weapon unreachable is a new violation and is exercised by the generators
+KNOWN_UNREACHABLE_WEAPONS = frozenset([14, 30, 31, 32, 33, 34, 44, 45, 50, 51, 56, 57, 58, 59, 60, 61, 63, 67, 68, 72, 83, 84, 87, 88, 89, 90, 91, 92,
+                                       93, 94, 95, 101, 102, 105, 106, 107, 108, 110, 117, 118, 119, 120, 121, 122, 123, 124, 125, 126, 127, 128, 129])
+REACHABLE_WEAPONS = frozenset(range(130)) - KNOWN_UNREACHABLE_WEAPONS
+
+
 REF_KIND = {  # which specification arguments are references, by argument name
     "_location": "loc", "_source_location": "loc", "_destination_location": "loc",
     "_text": "str", "_path_to_wav_in_mpq": "str", "_switch": "switch", "_properties": "cuwp",
